@@ -4,6 +4,7 @@ mod extract;
 mod c03;
 mod c04;
 mod c05;
+mod c06;
 mod c08;
 mod consts;
 mod gad;
@@ -73,6 +74,7 @@ fn main() {
         "c04" => c04::main(rest),
         "c05" => c05::main(rest),
         "consts" => consts::main(rest),
+        "c06" => c06::main(rest),
         "c08" => c08::main(rest),
         "c09" => c09::main(rest),
         "c14" => c14::main(rest),
